@@ -108,8 +108,10 @@ def exec_step(world: W.World, step: dict, ctx: seam.Ctx, fault=None, fp=False, e
         out.ws = ctx.ws_ordinals
         out.wsk = ctx.ws_events
     out.canon = snapshot.canon(out.value)
-    if out.fault_site is not None or fp or out.evict_site is not None:
-        out.status = "faulted"  # the faulted step's own outcome is unconstrained
+    if out.fault_site is not None or out.evict_site is not None or (fp and isinstance(out.exc, FloatingPointError)):
+        # the faulted step's own outcome is unconstrained. A step that ran under np.errstate(all="raise") WITHOUT
+        # hitting a FloatingPointError computed exactly what the fault-free run computes and stays constrained.
+        out.status = "faulted"
     return out
 
 
@@ -400,7 +402,8 @@ def gen_plan(rng: random.Random, cfg: dict, history: list[dict], config: str) ->
         at = aimed if aimed is not None else (
             rng.choice(ws) if ws and rng.random() < cfg["p_ws_aim"] else rng.randint(1, h["lines"]))
         if k == "fp_trap":
-            plan["fp"].append(h["i"])
+            # "the user runs with np.seterr(all='raise')" is a mode, not a point event: a third of the steps get it
+            plan["fp"] = sorted(set(plan["fp"]) | {x["i"] for x in cand if rng.random() < 0.33} | {h["i"]})
         elif k == "cache_evict":
             if plan["exec"] == "preempt":
                 continue  # a mid-step eviction would also hit the other clients' in-flight operations
